@@ -102,10 +102,40 @@ def _class_members(tree, funcs):
     return done
 
 
+def _explicit_tables(tree, funcs):
+    """a dispatch table spelled as one module-level dict display of functions (`REG = {KEY: f, ...}`) or as item stores
+    (`REG[KEY] = f`) is the decorator registration `@register(REG, KEY)` on each of the functions (only in modules that have
+    such a `register` helper): the display becomes `{}`, the stores disappear"""
+    if "register" not in funcs:
+        return 0
+    done = 0
+    for st in list(tree.body):
+        if isinstance(st, ast.Assign) and len(st.targets) == 1 and isinstance(st.targets[0], ast.Name) and \
+                isinstance(st.value, ast.Dict) and st.value.keys and all(k is not None for k in st.value.keys) and \
+                all(isinstance(v, ast.Name) and v.id in funcs for v in st.value.values):
+            reg = st.targets[0].id
+            for k, v in zip(st.value.keys, st.value.values):
+                dec = ast.Call(func=ast.Name(id="register", ctx=ast.Load()), args=[ast.Name(id=reg, ctx=ast.Load()), k], keywords=[])
+                ast.copy_location(dec, funcs[v.id])
+                funcs[v.id].decorator_list.append(dec)
+            st.value = ast.copy_location(ast.Dict(keys=[], values=[]), st.value)
+            done += 1
+        elif isinstance(st, ast.Assign) and len(st.targets) == 1 and isinstance(st.targets[0], ast.Subscript) and \
+                isinstance(st.targets[0].value, ast.Name) and isinstance(st.value, ast.Name) and st.value.id in funcs and \
+                st.targets[0].value.id.endswith("_registry"):
+            dec = ast.Call(func=ast.Name(id="register", ctx=ast.Load()),
+                           args=[ast.Name(id=st.targets[0].value.id, ctx=ast.Load()), st.targets[0].slice], keywords=[])
+            ast.copy_location(dec, funcs[st.value.id])
+            funcs[st.value.id].decorator_list.append(dec)
+            tree.body.remove(st)
+            done += 1
+    return done
+
+
 def normalise(tree):
     """rewrites tree.body in place; returns the number of loops unrolled"""
     funcs = {st.name: st for st in tree.body if isinstance(st, ast.FunctionDef)}
-    done = _class_members(tree, funcs)
+    done = _class_members(tree, funcs) + _explicit_tables(tree, funcs)
     if done:
         ast.fix_missing_locations(tree)
     new_body = []
